@@ -14,7 +14,8 @@ RULE = ("datetimes from six strata (uniform over years 1..9999, years<1000, mont
         "times x boundary microseconds, leap days, 1900-2100, every day of 13 boundary years in "
         "thorough) x 21 renderings (ISO date/date-time with space or T, fractions of 1-6 digits, "
         "RFC-2822 with/without weekday and +0000, English long/abbreviated month forms), each under two "
-        "random PREFER_*/RELATIVE_BASE combinations, languages=['en'] and autodetection; epochs: "
+        "random PREFER_*/RELATIVE_BASE combinations, languages=['en'], autodetection, and the plain call parse(s) without any "
+        "argument (alone or right after a plain call on a string in another language); epochs: "
         "10-digit numbers (boundaries, powers of two, uniform) with 0/3/6 extra digits, optional '-', "
         "TIMEZONE from IANA names, table abbreviations, offsets and 'local' under TZ=. Oracle: field "
         "copy truncated to the written precision / integer epoch arithmetic + pytz or table offset. "
@@ -90,6 +91,8 @@ def trunc(d, p):
     raise ValueError(p)
 
 
+FOREIGN = ["12 mai 2015", "3. Januar 2011", "12 мая 2015 г.", "2015年5月12日", "hace 2 semanas", "il y a 3 jours", "١٢ مايو ٢٠١٥",
+           "12 Mayıs 2015", "vor 2 Tagen", "02/03/2015", "not a date", "12 พฤษภาคม 2015"]
 FULL_YEARS = [1, 4, 100, 400, 999, 1000, 1582, 1600, 1900, 2000, 2024, 2100, 9999]
 N_DATES = {"quick": 2400, "thorough": 48000}
 N_EPOCH = {"quick": 6000, "thorough": 120000}
@@ -190,10 +193,20 @@ def check_date_case(ctx, name, d, st, mode):
     f, p = F[name]
     s = f(d)
     exp = trunc(d, p)
-    PathTap.reset()
     kw = {"settings": st}
     if mode == "en":
         kw["languages"] = ["en"]
+    elif mode.startswith("plain"):
+        # the everyday call: no languages, no settings (the library's shared default parser); optionally right after a
+        # plain call on a string in another language (what a long-running process interleaves)
+        kw = {}
+        if mode != "plain":
+            try:
+                dateparser.parse(mode[6:])
+            except Exception:
+                ctx.count("plain_disturber:raised(C02's subject)")
+            ctx.count("plain_disturber_calls")
+    PathTap.reset()
     try:
         r = dateparser.parse(s, **kw)
     except Exception as e:  # totality is C02's, but an escape here is also a wrong answer
@@ -230,6 +243,8 @@ def run_dates(ctx, rnd, ds, auto_every, renderings_per=None):
                 check_date_case(ctx, name, d, st, "en")
             if (i + names.index(name)) % auto_every == 0:
                 check_date_case(ctx, name, d, rand_settings(rnd), "auto")
+            if (i + names.index(name)) % auto_every == 1:
+                check_date_case(ctx, name, d, {}, rnd.choice(["plain", "plain:" + rnd.choice(FOREIGN)]))
         if i < 2:
             ctx.sample({"d": iso(d), "strings": [F[n][0](d) for n in names[:8]]})
 
